@@ -12,9 +12,7 @@ Proof.
   - intros [= <-]. subst a. split.
     + intros H%Z.eqb_eq. exists 0. lia.
     + intros (n & _ & H). apply Z.eqb_eq. lia.
-  - destruct (i32_ok (i0 + 1 - b)); cbn [negb]; [|discriminate].
-    destruct ((i0 + 1 - b =? i32_min) && (a =? -1)); [discriminate|].
-    intros [= <-]. set (n := i0 + 1 - b). split.
+  -     intros [= <-]. set (n := i0 + 1 - b). split.
     + intros H. apply andb_true_iff in H as [Hq Hr].
       apply Z.leb_le in Hq. apply Z.eqb_eq in Hr.
       exists (Z.quot n a). split; [assumption|].
@@ -24,23 +22,11 @@ Proof.
       apply andb_true_iff. split; [apply Z.leb_le; assumption | reflexivity].
 Qed.
 
-(* no arithmetic panic for values in a stated window *)
-Theorem is_matched_no_panic a b i0 :
-  Z.abs b <= 1073741823 -> 0 <= i0 <= 1073741822 -> is_matched a b i0 <> None.
-Proof.
-  intros Hb Hi. unfold is_matched. destruct (a =? 0); [discriminate|].
-  assert (Hok : i32_ok (i0 + 1 - b) = true).
-  { unfold i32_ok, i32_min, i32_max. apply andb_true_iff. split; apply Z.leb_le; lia. }
-  rewrite Hok. cbn [negb].
-  assert (Hne : (i0 + 1 - b =? i32_min) = false).
-  { apply Z.eqb_neq. unfold i32_min. lia. }
-  rewrite Hne. cbn [andb]. discriminate.
-Qed.
+(* no arithmetic panic for ANY values (64-bit arithmetic after the fix) *)
+Theorem is_matched_no_panic a b i0 : is_matched a b i0 <> None.
+Proof. unfold is_matched. destruct (a =? 0); discriminate. Qed.
 
-(* and there really is a panic outside it: the witness replayed on the implementation in C11 *)
-Lemma is_matched_panics_witness : is_matched (-1) (-2147483647) 1 = None.
-Proof. vm_compute. reflexivity. Qed.
-
+(* a number that does not fit in i32 is a syntax error, not a panic: "99999999999n+1" *)
 Lemma parse_overflow_witness :
-  parse_an_b [57;57;57;57;57;57;57;57;57;57;57;110;43;49]%N = AnbOverflow. (* "99999999999n+1" *)
+  parse_an_b [57;57;57;57;57;57;57;57;57;57;57;110;43;49]%N = AnbSyntax.
 Proof. vm_compute. reflexivity. Qed.
